@@ -9,8 +9,13 @@ From Coq Require Import Lia.
 (* values whose spelling ends in a delimiter: `endobj` may follow at once *)
 Definition self_delim (v : obj) : Prop := match v with OStr _ | OArr _ | ODict _ => True | _ => False end.
 
-(* the legal ways of writing object [x] (side conditions of render_obj) *)
-Definition wf_obj (x : oid * obj) (lo : lobj) : Prop :=
+(* a stream that is neither a cross-reference stream nor an object stream (those are bookkeeping containers of the
+   loader — Model/Loader.v: "only IXStm items have /Type /XRef and only IObjStm items have /Type /ObjStm") *)
+Definition plain_stream (d : list (bytes * obj)) : Prop :=
+  XrefStm.get_name d (B "Type") <> Some (B "XRef") /\ XrefStm.get_name d (B "Type") <> Some (B "ObjStm").
+
+(* the legal ways of writing object [x] (side conditions of render_obj); [K] = what is asked of a stream's dictionary *)
+Definition wf_obj_k (K : list (bytes * obj) -> Prop) (x : oid * obj) (lo : lobj) : Prop :=
   1 <= lo_nw lo /\ (fst (fst x) < 10 ^ N.of_nat (lo_nw lo))%N /\ (fst (fst x) < i64_lim)%N /\
   1 <= lo_gw lo /\ (snd (fst x) < 10 ^ N.of_nat (lo_gw lo))%N /\ (snd (fst x) < i64_lim)%N /\
   ws (lo_w1 lo) /\ lo_w1 lo <> [] /\ ws (lo_w2 lo) /\ ws (lo_w3 lo) /\ ws (lo_w4 lo) /\
@@ -18,9 +23,12 @@ Definition wf_obj (x : oid * obj) (lo : lobj) : Prop :=
   match snd x with
   | OStream d payload =>
     spells' 50 (ODict d) (lo_sp lo) /\ dict_get d key_Length = Some (OInt (Z.of_nat (len payload))) /\
-    eol1_ok (lo_eol1 lo) /\ eol2_ok (lo_eol2 lo) /\ ws (lo_w5 lo)
+    eol1_ok (lo_eol1 lo) /\ eol2_ok (lo_eol2 lo) /\ ws (lo_w5 lo) /\ K d
   | v => spells' 50 v (lo_sp lo) /\ (lo_w4 lo <> [] \/ self_delim v)
   end.
+
+(* a document object: a stream is an ordinary stream *)
+Definition wf_obj : oid * obj -> lobj -> Prop := wf_obj_k plain_stream.
 
 (* ---------- small facts on first bytes ---------- *)
 Lemma ws_first_not_digit w r : ws w -> w <> [] -> stops_digit (w ++ r).
@@ -157,8 +165,8 @@ Proof. intros Hv. unfold render_obj. cbn [fst snd]. destruct v; try reflexivity.
 Lemma no_stream_kw r : prefixb kw_stream (kw_endobj ++ r) = false.
 Proof. reflexivity. Qed.
 
-Theorem indirect_plain rel s c n g v lo rest :
-  at_cur s c (render_obj ((n, g), v) lo ++ rest) -> wf_obj ((n, g), v) lo -> (forall d p, v <> OStream d p) ->
+Theorem indirect_plain K rel s c n g v lo rest :
+  at_cur s c (render_obj ((n, g), v) lo ++ rest) -> wf_obj_k K ((n, g), v) lo -> (forall d p, v <> OStream d p) ->
   exists os oe e, indirect_p rel 50 [] s c = POk (mkInd n g v os oe None, c, e) e.
 Proof.
   intros H W Hv. rewrite render_obj_plain in H by exact Hv. repeat rewrite <- app_assoc in H.
@@ -197,12 +205,12 @@ Proof.
   destruct (Z.leb_spec 0 (Z.of_nat k)); [reflexivity|lia].
 Qed.
 
-Theorem indirect_stream rel s c n g d payload lo rest :
-  at_cur s c (render_obj ((n, g), OStream d payload) lo ++ rest) -> wf_obj ((n, g), OStream d payload) lo ->
+Theorem indirect_stream K rel s c n g d payload lo rest :
+  at_cur s c (render_obj ((n, g), OStream d payload) lo ++ rest) -> wf_obj_k K ((n, g), OStream d payload) lo ->
   exists os oe st e, indirect_p rel 50 [] s c = POk (mkInd n g (OStream d payload) os oe (Some st), c, e) e.
 Proof.
   intros H W. unfold render_obj in H. cbn [fst snd] in H. repeat rewrite <- app_assoc in H.
-  destruct W as (N1 & N2 & N3 & G1 & G2 & G3 & W1 & W1n & W2 & W3 & W4 & L & Sp & Dl & E1 & E2 & W5). cbn [fst snd] in *.
+  destruct W as (N1 & N2 & N3 & G1 & G2 & G3 & W1 & W1n & W2 & W3 & W4 & L & Sp & Dl & E1 & E2 & W5 & Pl). cbn [fst snd] in *.
   set (R := lo_w5 lo ++ kw_endobj ++ lo_post lo ++ rest) in *.
   set (T := lo_w4 lo ++ kw_stream ++ lo_eol1 lo ++ payload ++ lo_eol2 lo ++ kw_endstream ++ R) in *.
   pose proof (indirect_head_ok rel s c n g (ODict d) lo T H (conj N1 (conj N2 N3)) (conj G1 (conj G2 G3)) (conj W1 W1n) W2 W3 Sp I L) as Eh.
@@ -236,6 +244,27 @@ Proof.
   rewrite (exact_none xref_kw s c _ H (digits_no_xref _ _ _ W)). reflexivity.
 Qed.
 
+Lemma bytes_eqb_neq a b : a <> b -> bytes_eqb a b = false.
+Proof. intros H. destruct (bytes_eqb a b) eqn:E; [|reflexivity]. apply bytes_eqb_eq in E. contradiction. Qed.
+
+(* a stream that is not typed /XRef or /ObjStm is an ordinary object for the abstraction *)
+Lemma obj_item_plain rel id d content : plain_stream d -> obj_item rel id (OStream d content) = IObj id (OStream d content).
+Proof.
+  intros (P1 & P2). unfold obj_item, xstm_item, ostm_item.
+  assert (G : XrefStm.get_dict_info d = Err EGuard).
+  { unfold XrefStm.get_dict_info. destruct (XrefStm.get_name d (B "Type")) as [t|]; [|reflexivity].
+    rewrite bytes_eqb_neq by (intros ->; apply P1; reflexivity). reflexivity. }
+  rewrite G.
+  assert (O : ObjStm.os_dict_info d = Err EGuard).
+  { unfold ObjStm.os_dict_info. destruct (XrefStm.get_name d (B "Type")) as [t|]; [|reflexivity].
+    rewrite bytes_eqb_neq by (intros ->; apply P2; reflexivity). reflexivity. }
+  destruct (XrefStm.stream_filters d) as [[|? ?]| | |]; try reflexivity.
+  unfold ObjStm.objstm_parse. rewrite O. reflexivity.
+Qed.
+
+Lemma obj_item_nostream rel id v : (forall d p, v <> OStream d p) -> obj_item rel id v = IObj id v.
+Proof. intros H. destruct v; try reflexivity. exfalso. eapply H. reflexivity. Qed.
+
 Theorem item_at_object rel s c x lo rest :
   at_cur s c (render_obj x lo ++ rest) -> wf_obj x lo ->
   exists nx, item_at rel s c = (IObj (fst x) (snd x), nx).
@@ -248,8 +277,10 @@ Proof.
   assert (D : (exists d p, v = OStream d p) \/ (forall d p, v <> OStream d p)).
   { destruct v; try (right; intros; discriminate). left. eauto. }
   destruct D as [(d & p & ->)|D].
-  - destruct (indirect_stream rel s c n g d p lo rest H W) as (os & oe & st & e & E). rewrite E. cbn. eauto.
-  - destruct (indirect_plain rel s c n g v lo rest H W D) as (os & oe & e & E). rewrite E. cbn. eauto.
+  - destruct (indirect_stream _ rel s c n g d p lo rest H W) as (os & oe & st & e & E). rewrite E. cbn [i_num i_gen i_obj].
+    rewrite obj_item_plain; [eauto|]. apply W.
+  - destruct (indirect_plain _ rel s c n g v lo rest H W D) as (os & oe & e & E). rewrite E. cbn [i_num i_gen i_obj].
+    rewrite obj_item_nostream by exact D. eauto.
 Qed.
 
 (* the item is one that IndirectP accepts without looking anything up (Proofs/LoaderObjs.v [simple]) *)
